@@ -51,8 +51,11 @@
    the specification; the node loops keep the discipline; writers and readers are in-order and exactly-once by
    C01) and compared exactly with the implementation as a whole: real OneToOne / OneToMany / ManyToOne nodes in
    chains, fan-out, diamonds and fan-in with actions held open and released in random order, every source answer
-   checked against the reference evaluation of the workflow.  The network model itself is not run against the
-   implementation. *)
+   checked against the reference evaluation of the workflow.  The network model is run against those real
+   workflows as well (CheckTracer.net_ok): the harness supplies the derivations of a real run in creation order
+   (which inputs each action derived packets for; the own results of sinks, open ends and nodes that derive
+   nothing) and the model - per-node FIFO, row-complete rule, join - must compute exactly the answers the real
+   source received. *)
 From Coq Require Import List Arith NArith ZArith Bool.
 From Uf Require Import Packet.Writer Node.Tracer Node.TracerProofs Node.Spec Node.Refine Node.Loops.
 From Uf Require Node.Network.
